@@ -345,21 +345,257 @@ theorem SegRun.nonzero_cls {c : Cls} {e : Enc} {h0 : Bytes} {lay layE : Layout} 
       exact hne
     · exact ih (hok.2 _ _ h1) (fun y hy => hz y (List.mem_cons_of_mem _ hy)) x e'
 
+/-! ### segments at file offset 0 (`get_ordered_segments`' first loop, `orderFront`)
+
+`save_twice` / `save_twice_cls` assume `NoZeroOffset`: no segment is already at file offset 0, so
+that the first loop of `get_ordered_segments` ("bring the segments which start at address 0 to the
+front") is the identity.  A loaded executable has such a segment (the PT_LOAD covering the headers).
+This file removes the assumption for objects *all* of whose segments have an initialised offset
+(every loaded or previously saved object): the first loop then reads, of every segment, only
+whether its offset is 0, and a save does not change that (a segment at offset 0 stays there —
+`lseg_offset0` — and every other segment is laid out at a non-zero offset, `SegOkC`).
+
+(`orderFront` tests `worklist[nextSlot]->get_offset() == 0` *without* `is_offset_initialized()`:
+for a never-laid-out segment, whose offset field is still 0, the test is true before the first save
+and false after it.  With a fresh segment listed before a segment at offset 0 the two saves would
+order the segments differently; the public API cannot produce that list — `segments.add` appends,
+`set_offset` is protected — so the hypothesis `AllOffsetSet` loses nothing reachable.)
+-/
+
+/-- what the first ordering loop reads of a segment -/
+def FrontKey (φ : Seg → Seg) (g : Seg) : Prop :=
+  ((φ g).offsetSet && (φ g).offset == 0) = (g.offsetSet && g.offset == 0) ∧
+  ((φ g).offset == 0) = (g.offset == 0)
+
+theorem mem_of_set_set {wl : Array Seg} {i j k : Nat} {a b g : Seg}
+    (h : ((wl.set! i a).set! j b)[k]? = some g) : g = b ∨ g = a ∨ wl[k]? = some g := by
+  simp only [Array.set!_eq_setIfInBounds, Array.getElem?_setIfInBounds, Array.size_setIfInBounds] at h
+  by_cases e1 : j = k
+  · rw [if_pos e1] at h
+    by_cases e3 : j < wl.size
+    · rw [if_pos e3] at h; simp only [Option.some.injEq] at h; exact Or.inl h.symm
+    · rw [if_neg e3] at h; cases h
+  · rw [if_neg e1] at h
+    by_cases e2 : i = k
+    · rw [if_pos e2] at h
+      by_cases e3 : i < wl.size
+      · rw [if_pos e3] at h; simp only [Option.some.injEq] at h; exact Or.inr (Or.inl h.symm)
+      · rw [if_neg e3] at h; cases h
+    · rw [if_neg e2] at h; exact Or.inr (Or.inr h)
+
+theorem orderFront_go_map (φ : Seg → Seg) (n fuel i ns : Nat) (wl : Array Seg)
+    (hφ : ∀ (k : Nat) g, wl[k]? = some g → FrontKey φ g) :
+    orderFront.go n i ns (wl.map φ) fuel = (orderFront.go n i ns wl fuel).map (Array.map φ) := by
+  induction fuel generalizing i ns wl with
+  | zero => unfold orderFront.go; rfl
+  | succ fuel ih =>
+    unfold orderFront.go
+    by_cases hge : i ≥ n
+    · simp only [hge, if_true]; rfl
+    · simp only [hge, if_false]
+      rw [Array.getElem?_map]
+      cases hs : wl[i]? with
+      | none => rfl
+      | some si =>
+        simp only [Option.map_some]
+        have k1 := (hφ i si hs).1
+        have hc : (i != ns && (φ si).offsetSet && (φ si).offset == 0) = (i != ns && si.offsetSet && si.offset == 0) := by
+          rw [Bool.and_assoc, Bool.and_assoc, k1]
+        rw [hc]
+        by_cases hcond : (i != ns && si.offsetSet && si.offset == 0) = true
+        · simp only [hcond, if_true]
+          rw [Array.getElem?_map]
+          cases hsn : wl[ns]? with
+          | none => rfl
+          | some sn =>
+            simp only [Option.map_some]
+            rw [(hφ ns sn hsn).2]
+            rw [Array.getElem?_map]
+            cases hsn2 : wl[if (sn.offset == 0) = true then ns + 1 else ns]? with
+            | none => rfl
+            | some sn2 =>
+              simp only [Option.map_some]
+              have hm : ((wl.map φ).set! i (φ sn2)).set! (if (sn.offset == 0) = true then ns + 1 else ns) (φ si) =
+                  ((wl.set! i sn2).set! (if (sn.offset == 0) = true then ns + 1 else ns) si).map φ := by
+                simp only [Array.set!_eq_setIfInBounds, Array.map_setIfInBounds]
+              rw [hm]
+              apply ih
+              intro k g hk
+              rcases mem_of_set_set hk with e | e | e
+              · subst e; exact hφ i _ hs
+              · subst e; exact hφ _ _ hsn2
+              · exact hφ k g e
+        · have hcond' : (i != ns && si.offsetSet && si.offset == 0) = false := by simpa using hcond
+          simp only [hcond', Bool.false_eq_true, if_false]
+          exact ih _ _ _ hφ
+
+theorem front_set_set_perm (a : Array Seg) (i j : Nat) (x y : Seg) (hi : a[i]? = some x) (hj : a[j]? = some y) :
+    ((a.set! i y).set! j x).Perm a := by
+  obtain ⟨hi', rfl⟩ := Array.getElem?_eq_some_iff.1 hi
+  obtain ⟨hj', rfl⟩ := Array.getElem?_eq_some_iff.1 hj
+  have : (a.set! i a[j]).set! j a[i] = a.swap i j hi' hj' := by
+    simp [Array.set!_eq_setIfInBounds, Array.setIfInBounds_def, hi', hj', Array.swap]
+  rw [this]; exact Array.swap_perm hi' hj'
+
+/-- the first ordering loop permutes (same statement as `orderFront_go_perm` of Lemmas/Layout.lean,
+    which this file does not import) -/
+theorem orderFront_go_perm_any (n i ns : Nat) (wl out : Array Seg) (fuel : Nat)
+    (h : orderFront.go n i ns wl fuel = .ok out) : out.Perm wl := by
+  induction fuel generalizing i ns wl with
+  | zero =>
+    unfold orderFront.go at h
+    simp only [pure, Except.pure, Except.ok.injEq] at h
+    subst h; exact Array.Perm.refl _
+  | succ f ih =>
+    unfold orderFront.go at h
+    by_cases hge : i ≥ n
+    · simp only [hge, if_true, pure, Except.pure, Except.ok.injEq] at h
+      subst h; exact Array.Perm.refl _
+    · simp only [hge, if_false] at h
+      cases hi : wl[i]? with
+      | none => rw [hi] at h; simp [throw, throwThe, MonadExceptOf.throw] at h
+      | some si =>
+        rw [hi] at h
+        simp only at h
+        split at h
+        · cases hn : wl[ns]? with
+          | none => rw [hn] at h; simp [throw, throwThe, MonadExceptOf.throw] at h
+          | some sn =>
+            rw [hn] at h
+            simp only at h
+            cases hn2 : wl[if (sn.offset == 0) = true then ns + 1 else ns]? with
+            | none => rw [hn2] at h; simp [throw, throwThe, MonadExceptOf.throw] at h
+            | some sn2 =>
+              rw [hn2] at h
+              simp only at h
+              exact (ih _ _ _ h).trans (front_set_set_perm wl i _ si sn2 hi hn2)
+        · exact ih _ _ _ h
+
+/-- the layout order is a permutation of the segments — with or without offset-0 segments -/
+theorem orderedSegments_perm_any {segs ordered : List Seg} (h : orderedSegments segs = .ok ordered) :
+    ordered.Perm segs := by
+  unfold orderedSegments at h
+  simp only [bind, Except.bind] at h
+  cases hf : orderFront segs.toArray with
+  | error e => rw [hf] at h; cases h
+  | ok wl =>
+    rw [hf] at h
+    simp only at h
+    have h1 := orderTopo_perm _ _ _ _ h
+    simp only [List.append_nil] at h1
+    unfold orderFront at hf
+    have h2 := orderFront_go_perm_any _ _ _ _ _ _ hf
+    have h3 := Array.perm_iff_toList_perm.1 h2
+    exact h1.trans h3
+
+/-- the layout order commutes with a map that keeps the member lists and the offset-0 tests -/
+theorem orderedSegments_map_front {segs ordered : List Seg} (φ : Seg → Seg)
+    (hφ : ∀ g ∈ segs, (φ g).secs = g.secs) (hk : ∀ g ∈ segs, FrontKey φ g)
+    (h : orderedSegments segs = .ok ordered) : orderedSegments (segs.map φ) = .ok (ordered.map φ) := by
+  unfold orderedSegments at h ⊢
+  simp only [bind, Except.bind] at h ⊢
+  cases hf : orderFront segs.toArray with
+  | error e => rw [hf] at h; cases h
+  | ok wl =>
+    rw [hf] at h
+    simp only at h
+    have hf' : orderFront (segs.map φ).toArray = .ok (wl.map φ) := by
+      unfold orderFront at hf ⊢
+      rw [← List.map_toArray, Array.size_map, orderFront_go_map φ _ _ _ _ _ (fun k g hg => hk g (by
+        have := Array.mem_of_getElem? hg
+        simpa using this)), hf]
+      rfl
+    rw [hf']
+    simp only [List.length_map, Array.toList_map]
+    have hsub : ∀ g ∈ wl.toList, g ∈ segs := by
+      intro g hg
+      unfold orderFront at hf
+      have := orderFront_go_sub _ _ _ _ _ _ hf g (by simpa using hg)
+      simpa using this
+    have := orderTopo_map φ (· ∈ segs) hφ (segs.length * segs.length + segs.length + 1) wl.toList []
+      (fun g hg => hsub g (by simpa using hg))
+    simp only [List.map_nil] at this
+    rw [this, h]
+    rfl
+
+
+/-- a segment at file offset 0 (not the section-less PT_PHDR case) starts at 0 -/
+theorem segStartOf_offset0 {phoff : BitVec 64} {pe pn : BitVec 16} {lay : Layout} {g : Seg}
+    {p : Layout × BitVec 64 × BitVec 64 × BitVec 64} (h : segStartOf phoff pe pn lay g = .ok p)
+    (hph : lseg_is_phdr g.stype (BitVec.ofNat 16 g.secs.length) = false)
+    (h0 : lseg_offset0 g.offsetSet g.offset = true) : p.2.1 = 0 := by
+  unfold segStartOf at h
+  cases hh : g.secs.head? with
+  | none =>
+    rw [hh] at h
+    simp only [pure_bind, hph, h0, Bool.false_eq_true, if_false, if_true] at h
+    cases h; rfl
+  | some f =>
+    rw [hh] at h
+    simp only at h
+    cases hg : lay.gen[f.toNat]? with
+    | none => rw [hg] at h; cases h
+    | some b =>
+      rw [hg] at h
+      simp only [pure_bind, hph, h0, Bool.false_eq_true, if_false, if_true] at h
+      cases h; rfl
+
+/-- every segment has an initialised offset, and a section-less PT_PHDR is not at offset 0 -/
+def AllOffsetSet (segs : List Seg) : Prop :=
+  (∀ g ∈ segs, g.offsetSet = true) ∧
+  ∀ g ∈ segs, lseg_is_phdr g.stype (BitVec.ofNat 16 g.secs.length) = true → g.offset ≠ 0
+
+/-- along the run, a finished segment is at offset 0 exactly if it was before -/
+theorem SegRun.front_cls {c : Cls} {e : Enc} {h0 : Bytes} {lay layE : Layout} {ordered ds : List Seg}
+    (run : SegRun c e h0 lay ordered layE ds) (hok : RunOkC c e h0 lay ordered) (hset : AllOffsetSet ordered) :
+    All2 (fun g d => d.offsetSet = true ∧ (d.offset == 0) = (g.offset == 0)) ordered ds := by
+  induction run with
+  | nil => exact All2.nil
+  | @cons layA layB layC g d rest ds' h1 _ ih =>
+    refine All2.cons ?_ (ih (hok.2 _ _ h1)
+      ⟨fun y hy => hset.1 y (List.mem_cons_of_mem _ hy), fun y hy => hset.2 y (List.mem_cons_of_mem _ hy)⟩)
+    obtain ⟨p, st, s1, _, _, ed⟩ := layoutSegment_ok h1
+    obtain ⟨hnz, hfit, _⟩ := hok.1 p s1
+    obtain ⟨_, _, _, _, f5, f6, _⟩ := segFinish_fields c g p.2.1 st
+    have hgs := hset.1 g List.mem_cons_self
+    have hoff0 : lseg_offset0 g.offsetSet g.offset = (g.offset == 0) := by
+      rw [hgs]; simp [lseg_offset0]
+    rw [ed, f5, f6, hfit]
+    refine ⟨rfl, ?_⟩
+    by_cases hz : g.offset = 0
+    · have hph : lseg_is_phdr g.stype (BitVec.ofNat 16 g.secs.length) = false := by
+        cases hq : lseg_is_phdr g.stype (BitVec.ofNat 16 g.secs.length) with
+        | false => rfl
+        | true => exact absurd hz (hset.2 g List.mem_cons_self hq)
+      have := segStartOf_offset0 s1 hph (by rw [hoff0, hz]; rfl)
+      rw [this, hz]
+    · have h0' : lseg_offset0 g.offsetSet g.offset = false := by
+        rw [hoff0]; simpa using hz
+      have hne := hnz h0'
+      have e1 : (p.2.1 == 0) = false := by simpa using hne
+      have e2 : (g.offset == 0) = false := by simpa using hz
+      rw [e1, e2]
+
+/-- what `save_twice_front` asks of the segments' offsets: none is at offset 0 yet (a freshly built
+    object), or all are initialised (a loaded or previously saved object) -/
+def FrontOk (segs : List Seg) : Prop := NoZeroOffset segs ∨ AllOffsetSet segs
+
 /-- the side conditions of `save_twice_cls`, evaluated along the layout of the first save -/
 def ResaveOkC (o : Obj) (hd : Bytes) : Prop :=
   ∀ segs1 ordered, (preRes o).segs.mapM (calcSegAlign (preRes o).secs) = .ok segs1 →
     orderedSegments segs1 = .ok ordered →
     RunOkC o.cls o.enc (saveHdr0 (preRes o) hd) (saveLay0 (preRes o) (saveHdr0 (preRes o) hd)) ordered
 
-/-- **save_twice** (any class; flat or nested segments, none at file offset 0): if `save` succeeds, and
+/-- **save_twice** (any class; flat or nested segments; segments at file offset 0 allowed when all
+    offsets are initialised — `FrontOk`): if `save` succeeds, and
     the side conditions `ResaveOk` hold along its layout, then a second `save` of the resulting
     object into the same initial stream — if it succeeds, which it does unless file offsets wrap
     around 2^64 — returns *exactly the same result*: same object, same stream, identical bytes.
     The address-driven branch of `write_segment_data` recomputes, for every member, the cursor
     position the first pass recorded (`stepCore_resave`); the segment loop, the ordering, the
     alignment pass, the loose-section pass and the header preparation are idempotent. -/
-theorem save_twice_cls {o : Obj} {os : OStream} {r r2 : SaveRes} {hd : Bytes}
-    (hh : o.hdr = some hd) (hl : ehdrSize o.cls ≤ hd.length) (hidx : SegIdxOk o.segs) (hz : NoZeroOffset o.segs)
+theorem save_twice_front {o : Obj} {os : OStream} {r r2 : SaveRes} {hd : Bytes}
+    (hh : o.hdr = some hd) (hl : ehdrSize o.cls ≤ hd.length) (hidx : SegIdxOk o.segs) (hz : FrontOk o.segs)
     (hrs : ResaveOkC o hd) (hs : save o os = .ok r) (hok : r.ok = true)
     (hs2 : save r.obj os = .ok r2) (hok2 : r2.ok = true) : r2 = r := by
   obtain ⟨hd1, segs1, ordered, lay, done, e1, hf, h1, h2, h3, rfl⟩ := save_ok_unfold hs hok
@@ -425,7 +661,8 @@ theorem save_twice_cls {o : Obj} {os : OStream} {r r2 : SaveRes} {hd : Bytes}
     have := fa.2 k o1.segs[k] g (List.getElem?_eq_getElem hk) hg
     rw [(calcSegAlign_frame (c := o1.cls) this).1.index]
     exact hidx k _ (by rw [← hsegs]; exact List.getElem?_eq_getElem hk)
-  have hz1 : NoZeroOffset segs1 := by
+  have hsrc : ∀ g ∈ segs1, ∃ g0 ∈ o.segs, g.offset = g0.offset ∧ g.offsetSet = g0.offsetSet ∧
+      g.stype = g0.stype ∧ g.secs = g0.secs := by
     intro g hg
     obtain ⟨k, hk⟩ := List.getElem?_of_mem hg
     have hk' : k < o1.segs.length := by
@@ -434,9 +671,9 @@ theorem save_twice_cls {o : Obj} {os : OStream} {r r2 : SaveRes} {hd : Bytes}
       · exact hlt
       · rw [List.getElem?_eq_none hge] at hk; cases hk
     have := calcSegAlign_frame (c := o1.cls) (fa.2 k o1.segs[k] g (List.getElem?_eq_getElem hk') hk)
-    rw [this.2.1, this.2.2.2.2]
-    exact hz _ (by rw [← hsegs]; exact List.getElem_mem hk')
-  have hperm := orderedSegments_perm hz1 h2
+    refine ⟨o1.segs[k], by rw [← hsegs]; exact List.getElem_mem hk', this.2.1, this.2.2.2.2, ?_, this.1.secs⟩
+    rw [this.1.rest]
+  have hperm := orderedSegments_perm_any h2
   have hpair1 : segs1.Pairwise (fun a b => a.index ≠ b.index) := by
     rw [List.pairwise_iff_getElem]
     intro i j hi hj hij e
@@ -452,7 +689,7 @@ theorem save_twice_cls {o : Obj} {os : OStream} {r r2 : SaveRes} {hd : Bytes}
       rw [e]; exact (segFinish_fields _ _ _ _).2.2.2.2.2.2)
   have hmapO : ordered.map (backFn done) = done := map_backFn_eq hfinIdx hpairO
   -- the finished version of a segment of `segs1` keeps member list and alignment
-  have hback : ∀ g ∈ segs1, (backFn done g).secs = g.secs ∧ (backFn done g).align = g.align := by
+  have hbackk : ∀ g ∈ segs1, ∃ k, ordered[k]? = some g ∧ ∃ hkd : k < done.length, backFn done g = done[k] := by
     intro g hg
     have hgo : g ∈ ordered := (hperm.mem_iff).2 hg
     obtain ⟨k, hk⟩ := List.getElem?_of_mem hgo
@@ -461,10 +698,13 @@ theorem save_twice_cls {o : Obj} {os : OStream} {r r2 : SaveRes} {hd : Bytes}
       · exact hlt
       · rw [List.getElem?_eq_none hge] at hk; cases hk
     have hkd : k < done.length := by rw [(All2.getElem? hfin).1]; exact hk'
-    have e : backFn done g = done[k] := by
-      have := congrArg (fun l => l[k]?) hmapO
-      simp only [List.getElem?_map, hk, Option.map_some, List.getElem?_eq_getElem hkd, Option.some.injEq] at this
-      exact this
+    refine ⟨k, hk, hkd, ?_⟩
+    have := congrArg (fun l => l[k]?) hmapO
+    simp only [List.getElem?_map, hk, Option.map_some, List.getElem?_eq_getElem hkd, Option.some.injEq] at this
+    exact this
+  have hback : ∀ g ∈ segs1, (backFn done g).secs = g.secs ∧ (backFn done g).align = g.align := by
+    intro g hg
+    obtain ⟨k, hk, hkd, e⟩ := hbackk g hg
     obtain ⟨ss, st, ef⟩ := (All2.getElem? hfin).2 k g _ hk (List.getElem?_eq_getElem hkd)
     rw [e, ef]
     exact ⟨(segFinish_fields _ _ _ _).2.1, (segFinish_fields _ _ _ _).2.2.1⟩
@@ -503,20 +743,44 @@ theorem save_twice_cls {o : Obj} {os : OStream} {r r2 : SaveRes} {hd : Bytes}
     rw [this] at k1; cases k1; rfl
   subst eq1
   -- B. the order of the finished segments
-  have hz2 : NoZeroOffset (segs1.map (backFn done)) := by
-    have hnzd : NoZeroOffset done :=
-      SegRun.nonzero_cls run (by
-        have := hrs segs1 ordered (by rw [ho1]; exact h1) h2
-        rw [ho1, hh0] at this; exact this) (fun g hg => hz1 g ((hperm.mem_iff).1 hg))
-    intro g2 hg2
-    obtain ⟨g, hg, rfl⟩ := List.mem_map.1 hg2
-    unfold backFn
-    cases hfd : done.find? (fun d => d.index == g.index) with
-    | none => exact hz1 g hg
-    | some d => exact hnzd d (List.mem_of_find?_eq_some hfd)
+  have hrun0 : RunOkC o.cls o.enc h0 (saveLay0 o1 h0) ordered := by
+    have := hrs segs1 ordered (by rw [ho1]; exact h1) h2
+    rw [ho1, hh0] at this; exact this
+  have hmapped : orderedSegments (segs1.map (backFn done)) = .ok (ordered.map (backFn done)) := by
+    rcases hz with hzA | hzB
+    · -- no segment at offset 0: the first loop is the identity before and after
+      have hz1 : NoZeroOffset segs1 := by
+        intro g hg
+        obtain ⟨g0, hg0, e1, e2, -, -⟩ := hsrc g hg
+        rw [e1, e2]; exact hzA g0 hg0
+      have hz2 : NoZeroOffset (segs1.map (backFn done)) := by
+        have hnzd : NoZeroOffset done :=
+          SegRun.nonzero_cls run hrun0 (fun g hg => hz1 g ((hperm.mem_iff).1 hg))
+        intro g2 hg2
+        obtain ⟨g, hg, rfl⟩ := List.mem_map.1 hg2
+        unfold backFn
+        cases hfd : done.find? (fun d => d.index == g.index) with
+        | none => exact hz1 g hg
+        | some d => exact hnzd d (List.mem_of_find?_eq_some hfd)
+      exact orderedSegments_map (backFn done) (fun g hg => (hback g hg).1) hz1 hz2 h2
+    · -- all offsets initialised: a save keeps "is at offset 0"
+      have hset1 : AllOffsetSet ordered := by
+        refine ⟨fun g hg => ?_, fun g hg hph => ?_⟩
+        · obtain ⟨g0, hg0, -, e2, -, -⟩ := hsrc g ((hperm.mem_iff).1 hg)
+          rw [e2]; exact hzB.1 g0 hg0
+        · obtain ⟨g0, hg0, e1, -, e3, e4⟩ := hsrc g ((hperm.mem_iff).1 hg)
+          rw [e1]; rw [e3, e4] at hph; exact hzB.2 g0 hg0 hph
+      have hfront := SegRun.front_cls run hrun0 hset1
+      refine orderedSegments_map_front (backFn done) (fun g hg => (hback g hg).1) (fun g hg => ?_) h2
+      obtain ⟨k, hk, hkd, e⟩ := hbackk g hg
+      obtain ⟨q1, q2⟩ := (All2.getElem? hfront).2 k g _ hk (List.getElem?_eq_getElem hkd)
+      have hgs : g.offsetSet = true := hset1.1 g ((hperm.mem_iff).2 hg)
+      unfold FrontKey
+      rw [e, q1, q2, hgs]
+      exact ⟨rfl, rfl⟩
   have eq2 : ordered2 = done := by
     rw [putBack_eq_map] at k2
-    rw [orderedSegments_map (backFn done) (fun g hg => (hback g hg).1) hz1 hz2 h2, hmapO] at k2
+    rw [hmapped, hmapO] at k2
     cases k2; rfl
   subst eq2
   -- C. the segment loop, in step
@@ -557,6 +821,13 @@ theorem save_twice_cls {o : Obj} {os : OStream} {r r2 : SaveRes} {hd : Bytes}
     rw [← eL, layoutLoose_eq]; rfl
   rw [eL', looseSpec_idem]
 
+/-- **save_twice_cls** : `save_twice` for any class (no segment at file offset 0) -/
+theorem save_twice_cls {o : Obj} {os : OStream} {r r2 : SaveRes} {hd : Bytes}
+    (hh : o.hdr = some hd) (hl : ehdrSize o.cls ≤ hd.length) (hidx : SegIdxOk o.segs) (hz : NoZeroOffset o.segs)
+    (hrs : ResaveOkC o hd) (hs : save o os = .ok r) (hok : r.ok = true)
+    (hs2 : save r.obj os = .ok r2) (hok2 : r2.ok = true) : r2 = r :=
+  save_twice_front hh hl hidx (Or.inl hz) hrs hs hok hs2 hok2
+
 /-- the byte-level reading of `save_twice_cls` -/
 theorem save_idempotent_on_settled_cls {o : Obj} {os : OStream} {r r2 : SaveRes} {hd : Bytes}
     (hh : o.hdr = some hd) (hl : ehdrSize o.cls ≤ hd.length) (hidx : SegIdxOk o.segs) (hz : NoZeroOffset o.segs)
@@ -564,6 +835,14 @@ theorem save_idempotent_on_settled_cls {o : Obj} {os : OStream} {r r2 : SaveRes}
     (hs2 : save r.obj os = .ok r2) (hok2 : r2.ok = true) :
     r2.os.content = r.os.content ∧ r2.obj = r.obj := by
   rw [save_twice_cls hh hl hidx hz hrs hs hok hs2 hok2]; exact ⟨rfl, rfl⟩
+
+/-- the byte-level reading of `save_twice_front` -/
+theorem save_idempotent_front {o : Obj} {os : OStream} {r r2 : SaveRes} {hd : Bytes}
+    (hh : o.hdr = some hd) (hl : ehdrSize o.cls ≤ hd.length) (hidx : SegIdxOk o.segs) (hz : FrontOk o.segs)
+    (hrs : ResaveOkC o hd) (hs : save o os = .ok r) (hok : r.ok = true)
+    (hs2 : save r.obj os = .ok r2) (hok2 : r2.ok = true) :
+    r2.os.content = r.os.content ∧ r2.obj = r.obj := by
+  rw [save_twice_front hh hl hidx hz hrs hs hok hs2 hok2]; exact ⟨rfl, rfl⟩
 
 /-! ### ELF64: the new side conditions are vacuous -/
 
@@ -727,5 +1006,49 @@ theorem exObj32_resave :
   rcases Nat.lt_or_ge k 2 with h | h
   · exact this k h g hg
   · rw [List.getElem?_eq_none (show exObj32.segs.length ≤ k from h)] at hg; cases hg
+
+/-! ### non-vacuity with a segment at file offset 0 -/
+
+def exHdr64 : Bytes := Hdr.create .c64 .lsb 1
+
+/-- an object as a loader leaves it for a small executable: every segment offset initialised, the
+    first PT_LOAD at file offset 0 (it covers the headers and `.text`), a second PT_LOAD over `.data` -/
+def exLoadedLike : Obj :=
+  { cls := .c64, enc := .lsb, hdr := some exHdr64,
+    secs := [ { SecBuf.fresh .c64 0 with index := 0, addrSet := true },
+              { SecBuf.fresh .c64 3 with index := 1, size := 17, addrAlign := 1, addrSet := true, offset := 0x2010 },
+              { SecBuf.fresh .c64 1 with index := 2, size := 24, addrAlign := 16, flags := 6,
+                                         addr := 0x4000b0, addrSet := true, offset := 0xb0 },
+              { SecBuf.fresh .c64 1 with index := 3, size := 10, addrAlign := 4, flags := 3,
+                                         addr := 0x402000, addrSet := true, offset := 0x2000 } ],
+    segs := [ { stype := 1, vaddr := 0x400000, align := 0x1000, secs := [2], index := 0,
+                offset := 0, offsetSet := true, filesz := 0xc8, memsz := 0xc8 },
+              { stype := 1, vaddr := 0x402000, align := 0x1000, secs := [3], index := 1,
+                offset := 0x2000, offsetSet := true, filesz := 10, memsz := 10 } ] }
+
+/-- `exLoadedLike` is outside `NoZeroOffset` but meets every hypothesis of `save_twice_front`
+    (right disjunct of `FrontOk`), and both saves succeed with the PT_LOAD still at offset 0 -/
+theorem exLoadedLike_resave :
+    exLoadedLike.hdr = some exHdr64 ∧ ehdrSize exLoadedLike.cls ≤ exHdr64.length ∧ SegIdxOk exLoadedLike.segs ∧
+    ¬ NoZeroOffset exLoadedLike.segs ∧ FrontOk exLoadedLike.segs ∧ ResaveOkC exLoadedLike exHdr64 ∧
+    (match save exLoadedLike {} with
+     | .ok r => r.ok && r.obj.segs.map (·.offset) == [0, 0x1000] &&
+         (match save r.obj {} with | .ok r2 => r2.ok | .error _ => false)
+     | .error _ => false) = true := by
+  refine ⟨rfl, by decide, ?_, ?_, Or.inr ⟨?_, ?_⟩, resaveOkC_of_B (by decide +kernel), by decide +kernel⟩
+  · intro k g hg
+    have : ∀ k < 2, ∀ g, exLoadedLike.segs[k]? = some g → g.index = k := by decide
+    rcases Nat.lt_or_ge k 2 with h | h
+    · exact this k h g hg
+    · rw [List.getElem?_eq_none (show exLoadedLike.segs.length ≤ k from h)] at hg; cases hg
+  · intro h
+    have : ∃ g ∈ exLoadedLike.segs, (g.offsetSet && g.offset == 0) = true := by decide
+    obtain ⟨g, hg, e⟩ := this
+    rw [h g hg] at e; cases e
+  · have : ∀ g ∈ exLoadedLike.segs, g.offsetSet = true := by decide
+    exact this
+  · have : ∀ g ∈ exLoadedLike.segs, lseg_is_phdr g.stype (BitVec.ofNat 16 g.secs.length) = true → g.offset ≠ 0 := by
+      decide
+    exact this
 
 end ElfioVerif.C06
